@@ -106,6 +106,12 @@ class StochasticAtomGraph:
                             bd_lhs_idx = _find_bd_token(element_lhs, bd_lhs)
                             bd_rhs_idx = _find_bd_token(element_rhs, bd_rhs)
 
+                            # End groups are leaves, no transition starts from them
+                            if isinstance(element_lhs, Stochastic) and bd_lhs_idx >= len(
+                                element_lhs.repeat_tokens
+                            ):
+                                continue
+
                             # Exclude direct exit into terminal group
                             exclude_transition_into_terminal = True
                             try:
